@@ -583,11 +583,22 @@ def make_header_pair(direction, rep, nlen, vlen):
             got = evs[0].headers
             check(len(got) == len(shown), 'headers-differ', (len(got), len(shown)))
             if len(got) == len(shown):
-                terms = []
-                for g, w in zip(got, shown):
-                    terms.append(O.eqx(g[0], w[0]))
-                    terms.append(O.eqx(g[1], w[1]))
-                check(s_and(*terms), 'headers-differ', None)
+                def same(order):
+                    terms = []
+                    for g, w in zip(got, order):
+                        terms.append(O.eqx(g[0], w[0]))
+                        terms.append(O.eqx(g[1], w[1]))
+                    return s_and(*terms)
+                # documented normalisation on the receiving side: a cookie field is
+                # delivered last.  The (single) symbolic field may have become one.
+                from engine.core import s_or, s_not
+                verdict = same(shown)
+                for i, w in enumerate(shown):
+                    is_cookie = O.eqc(w[0], b'cookie')
+                    moved = [x for j, x in enumerate(shown) if j != i] + [w]
+                    verdict = s_or(s_and(s_not(is_cookie), verdict),
+                                   s_and(is_cookie, same(moved)))
+                check(verdict, 'headers-differ', None)
     return h
 
 
